@@ -102,34 +102,49 @@ def unexpected_errors(ctx, traces, scenarios, clause="contract.no_exception"):
 
 
 def self_test(ctx, scenarios):
-    """Binding demonstration: corrupt one logged field / drop one event; the trace must be rejected."""
-    traces, kept = run_scenarios(scenarios[:3])
+    """Binding demonstration: corrupt one logged field / drop one event of a call that validates cleanly;
+    the corrupted trace must be rejected.  Calls that do not validate cleanly on the tree under test are
+    not used (a deviation of the code is reported by the property clauses, not by the self-test)."""
+    traces, kept = run_scenarios(scenarios[:6])
+    if not traces:
+        ctx.skip("self-test (no scenario could be constructed)")
+        return
+    fails0, res0 = tracecheck.validate("Trace_IncExplainer", traces, lambda t: len(t["calls"]),
+                                       tag=ctx.pid.lower() + "self0", workers=2)
+    dirty = {(f[1], f[2]) for f in fails0} | {(p[2] - 1, p[3]) for p in res0.tagged("SKIP")}
     bad = copy.deepcopy(traces)
     expect = set()
+    kind = 0
     for tid, t in enumerate(bad):
         for l, c in enumerate(t["calls"]):
-            if c["pre"]["seen"] >= 1 and c["outcome"] == "ret" and c["post"]["imp"]:
-                if tid % 3 == 0:
+            if (tid, l + 1) in dirty:
+                continue
+            if c["pre"]["seen"] >= 1 and c["outcome"] == "ret" and c["post"]["imp"] and c["losses"] and c["models"]:
+                if kind % 3 == 0:
                     c["post"]["imp"][0][1][1] = (c["post"]["imp"][0][1][1] + 1) % 46337
-                    expect.add(("importance", tid))
-                elif tid % 3 == 1:
+                    expect.add(("importance", tid, l + 1))
+                elif kind % 3 == 1:
                     c["losses"][-1]["val"] = (c["losses"][-1]["val"] + 3) % 46337
-                    expect.add(("importance", tid))
+                    expect.add(("importance", tid, l + 1))
                 else:
                     c["models"].pop()
-                    expect.add(("contract.model_calls", tid))
+                    expect.add(("contract.model_calls", tid, l + 1))
+                kind += 1
                 break
+    if not expect:
+        ctx.skip("self-test (no cleanly validating explained call on this tree)")
+        return
     fails, _ = tracecheck.validate("Trace_IncExplainer", bad, lambda t: len(t["calls"]),
                                    tag=ctx.pid.lower() + "self", workers=2)
     got = set()
     for f in fails:
-        for name, tid in expect:
-            if f[1] == tid and name in f[0]:
-                got.add((name, tid))
+        for (name, tid, l) in expect:
+            if f[1] == tid and f[2] == l and name in f[0]:
+                got.add((name, tid, l))
     if got != expect:
-        raise tlc.TLCError("binding self-test failed: expected rejections %r, got %r" % (sorted(expect), sorted(fails)))
+        raise tlc.TLCError("binding self-test failed: expected rejections %r, got %r" % (sorted(expect), sorted(fails)[:20]))
     ctx.add_stage("self-test: corrupted importance / loss value / dropped model event rejected", "selftest",
-                  rejected=len(fails))
+                  rejected=len(fails), corrupted_calls=len(expect))
 
 
 def fault_free_batch(rng, n, quick, **force):
